@@ -14,11 +14,11 @@ VARIABLE i
 TValueBound == 4          \* |entry| of every input array (Pythagorean columns go up to 4)
 
 CfgFields == {"op", "kind", "shape", "rank", "family", "how", "mode", "operand", "odim", "keep", "copy", "npad", "padb",
-              "lens", "maxrank", "thr", "listin", "fshapes", "coreshape", "pshapes", "rshapes", "mag"}
+              "lens", "maxrank", "thr", "listin", "fshapes", "coreshape", "pshapes", "rshapes", "mag", "omix", "steps"}
 OutFields == {"raised", "malformed", "exact", "dense", "cn", "cnfin", "wmin", "summ", "sfin", "parts", "perm",
-              "orth", "orthfin", "nproj", "recon", "slices"}
+              "orth", "orthfin", "nproj", "recon", "slices", "dense_im", "dtype", "steps"}
 Ops == {"normalize", "cp_flip_sign", "cp_permute_factors", "pad_tt_rank", "cp_mode_dot", "tucker_mode_dot",
-        "cp_to_parafac2", "svd_roundtrip", "svd_compress"}
+        "cp_to_parafac2", "svd_roundtrip", "svd_compress", "sequence"}
 
 IsLogT(T)  == {"shape", "data"} \subseteq DOMAIN T /\ IsTAny(T)
 IsLogQ(T)  == {"shape", "q", "fin"} \subseteq DOMAIN T /\ T.fin \in BOOLEAN
@@ -40,6 +40,19 @@ WellFormed(e) ==
             /\ e.cfg.operand \in {"matrix", "vector"}
             /\ (e.cfg.operand = "matrix" => "m" \in DOMAIN e.in /\ IsLogT(e.in.m) /\ TBounded(e.in.m) /\ Len(e.in.m.shape) = 2)
             /\ (e.cfg.operand = "vector" => "v" \in DOMAIN e.in /\ \A k \in 1..Len(e.in.v) : e.in.v[k] \in (-TValueBound)..TValueBound))
+    /\ (e.cfg.op = "sequence" =>
+            /\ {"m", "g"} \subseteq DOMAIN e.in /\ IsLogT(e.in.m) /\ TBounded(e.in.m) /\ Len(e.in.m.shape) = 2
+            /\ IsLogT(e.in.g) /\ TBounded(e.in.g) /\ Len(e.in.g.shape) = 2
+            /\ \A i \in 1..Len(e.cfg.steps) : e.cfg.steps[i] \in {"N", "M", "A", "F"}
+            /\ \A i \in 1..Len(e.out.steps) : /\ {"raised", "dense", "cn", "cnfin"} \subseteq DOMAIN e.out.steps[i]
+                                                /\ e.out.steps[i].raised \in BOOLEAN /\ e.out.steps[i].cnfin \in BOOLEAN
+                                                /\ IsLogQ(e.out.steps[i].dense))
+    /\ (e.cfg.omix # "none" =>
+            /\ e.cfg.op \in {"cp_mode_dot", "tucker_mode_dot"} /\ e.cfg.omix \in {"int_float", "real_cplx", "f32_f64"}
+            /\ IsLogQ(e.out.dense_im)
+            /\ (e.cfg.omix = "real_cplx" /\ e.cfg.operand = "matrix" => "mim" \in DOMAIN e.in /\ IsLogT(e.in.mim) /\ TBounded(e.in.mim) /\ e.in.mim.shape = e.in.m.shape)
+            /\ (e.cfg.omix = "real_cplx" /\ e.cfg.operand = "vector" => "vim" \in DOMAIN e.in /\ Len(e.in.vim) = Len(e.in.v)
+                                                                       /\ \A k \in 1..Len(e.in.vim) : e.in.vim[k] \in (-TValueBound)..TValueBound))
     /\ (e.cfg.op = "cp_permute_factors" => "ref" \in DOMAIN e.in /\ "fs" \in DOMAIN e.in.ref /\ TensAll(e.in.ref.fs) /\ WOK(e.in.ref))
     /\ OutFields \subseteq DOMAIN e.out
     /\ e.out.raised \in BOOLEAN /\ e.out.malformed \in BOOLEAN /\ e.out.exact \in BOOLEAN
@@ -69,6 +82,7 @@ InDomain(e) ==
     /\ (c.op \in {"cp_mode_dot", "tucker_mode_dot"} =>
             IF c.operand = "matrix" THEN in.m.shape = <<c.odim, c.shape[c.mode + 1]>> ELSE Len(in.v) = c.shape[c.mode + 1])
     /\ (c.op = "cp_permute_factors" => PermDomain(in.ref, in))
+    /\ (c.op = "sequence" => c.mode < Len(c.shape) /\ SeqOperandOK(c, in) /\ Len(e.out.steps) = Len(c.steps))
     /\ (c.op = "cp_to_parafac2" => Len(c.shape) = 3 /\ c.shape[2] >= c.rank[1])
     /\ (c.op = "svd_roundtrip" =>
             /\ Len(e.out.slices) = Len(in.ps)
@@ -89,6 +103,17 @@ Verdict(e) ==
     LET c == e.cfg  in == e.in  out == e.out  kd == e.cfg.kind
         X == Expected(c, in) IN
     IF ~InBound(X) THEN "InDomain"
+    ELSE IF c.op = "sequence" THEN
+        \* every step of the sequence is judged on its own: the object represents the expected tensor after it, and
+        \* after every normalize() its non-zero columns have unit norm (zero-ness from the state BEFORE that step)
+        LET ST == SeqStates(c, in)
+            SClause(i) == IF out.steps[i].raised THEN "SeqRaised"
+                          ELSE IF ~InBound(CPDense(ST[i])) THEN "InDomain"
+                          ELSE IF ~CloseQ(out.steps[i].dense, CPDense(ST[i])) THEN "SeqDense"
+                          ELSE IF c.steps[i] = "N" /\ (~out.steps[i].cnfin \/ ~UnitColumns("cp", ST[i - 1], out.steps[i].cn)) THEN "SeqUnitColumns"
+                          ELSE "ok"
+            bad == {i \in 1..Len(c.steps) : SClause(i) # "ok"}
+        IN  IF bad = {} THEN "ok" ELSE SClause(CHOOSE i \in bad : \A j \in bad : i <= j)
     ELSE IF out.raised THEN "Raised"
     ELSE IF out.malformed THEN "OutputMalformed"
     ELSE
@@ -114,7 +139,13 @@ Verdict(e) ==
             ELSE IF ~PaddedRanks(kd, in, P, c.npad, c.padb) THEN "RanksEnlarged"
             ELSE IF PadDense(kd, P, c.padb) # X THEN "Dense" ELSE "ok"
       [] c.op \in {"cp_mode_dot", "tucker_mode_dot"} ->
-            IF ~CloseQ(out.dense, X) THEN "Dense" ELSE "ok"
+            \* (with an operand of another type the harness logs OMixDen * result; real and imaginary parts separately)
+            IF ~CloseQ(out.dense, X) THEN "Dense"
+            ELSE IF c.omix = "real_cplx"
+                    /\ ~CloseQ(out.dense_im, ModeDotExpected(Dense(kd, in), c, IF c.operand = "matrix" THEN [in EXCEPT !.m = in.mim]
+                                                                                                      ELSE [in EXCEPT !.v = in.vim])) THEN "DenseIm"
+            ELSE IF c.omix # "none" /\ out.dtype # OMixOut(c) THEN "Dtype"
+            ELSE "ok"
       [] c.op = "cp_to_parafac2" ->
             IF ~CloseQ(out.dense, X) THEN "Dense"
             ELSE IF out.nproj # c.shape[1] THEN "Projections"
